@@ -7,6 +7,7 @@ func init() {
 		ID: "C04",
 		Explanation: "Decides: R1 the method summary is rebuilt after every change of a handler map's key set; R2 the automatic OPTIONS/405 handlers are stored on, and stay with, the node object they were built for (a handler map never moves to another node object); R3 every summary is computed by a summary builder (TRACE clause under hasTrace, memo entry rendered) or is followed by one; R4 every removing entry point updates the tree-wide summary, and decrements come from keys actually removed; R5 summary/rendering conformance (one bit per method, builder ranges over all keys, renderer keeps exactly the set bits, Allow/Methods()/Routes() read one memo entry). " +
 			"R16 every method of the table except the automatic entries, named in Remove's list, reaches the deletion of its entry. " +
+			"R18 (= C01.R21) a rule with '{' is refused (two nodes for one pattern otherwise). " +
 			"Not decided: the arithmetic of the tree-wide counters for arbitrary histories.",
 		Assumptions: commonAssumptions,
 		Run: func(c *Ctx) {
@@ -30,6 +31,7 @@ func init() {
 			ruleSummaryReadOnlyOfLiveNodes(c, "R15")
 			ruleOnlyAutomaticKeysAreKeptOnRemove(c, "R16")
 			ruleReportedRoute(c, "R17")
+			ruleRuleTextHasNoBraces(c, "R18")
 		},
 	})
 	register(&Spec{
@@ -54,6 +56,7 @@ func init() {
 			ruleRegexpSplitOnRuneBoundary(c, "R11")
 			ruleParameterNamesAreRemembered(c, "R12")
 			ruleNameCleaned(c, "R13")
+			ruleStrippedNameIsNotEmpty(c, "R14")
 		},
 	})
 	register(&Spec{
